@@ -73,7 +73,10 @@ SPEC = dict(
          "selectNodeContents, compareBoundaryPoints (4 modes, every pair of ranges), deleteContents, extractContents, cloneContents, insertNode, "
          "surroundContents, toString, cloneRange, detach.  Bounds: quick = all histories of depth <= 3 with at most one view (full alphabet); thorough = "
          "that plus depth <= 3 with at most two simultaneously live views (full alphabet) plus depth <= 4 with one view over the 'medium' alphabet (complete "
-         "view alphabet, mutation operands reduced to the fixed list keep_reduced() in drv/c14_apply.hpp).  distinct_nontrivial = distinct states (by key) "
+         "view alphabet, mutation operands reduced to the fixed list keep_reduced() in drv/c14_apply.hpp).  Both tiers add the deep, narrow 'traversal' alphabet "
+         "(keep_traversal(): every NodeIterator/TreeWalker configuration, nextNode/previousNode and the seven walker moves, every removeChild, four "
+         "re-insertions) to depth 6 (quick) / 7 (thorough): positions such as 'last movement was previousNode() and the reference node is the tail of the "
+         "iteration' need creation + n x nextNode + previousNode + removal and are out of reach of depth 3/4.  distinct_nontrivial = distinct states (by key) "
          "with at least one live view.  The space 'known-defect-witnesses' executes the fixed witness history of each KNOWN_DEFECTS entry without guards.",
     trusted_base=["reference DOM L2 Traversal/Range model drv/c14_ref.hpp + drv/c14_apply.hpp (written from the recommendation text restated in DOMRange.hpp, "
                   "DOMNodeIterator.hpp, DOMTreeWalker.hpp; shares no code with Xerces)", "clang 14 ASan/UBSan"],
@@ -97,8 +100,9 @@ SPEC = dict(
     ],
     coverage=_coverage,
     runs=dict(
-        quick=[_WITNESSES, _explore("one-view-depth3", 1, 3)],
-        thorough=[_WITNESSES, _explore("one-view-depth3", 1, 3), _explore("two-views-depth3", 2, 3), _explore("one-view-depth4-medium", 1, 4, "medium")],
+        quick=[_WITNESSES, _explore("one-view-depth3", 1, 3), _explore("traversal-depth6", 1, 6, "traversal")],
+        thorough=[_WITNESSES, _explore("one-view-depth3", 1, 3), _explore("two-views-depth3", 2, 3), _explore("one-view-depth4-medium", 1, 4, "medium"),
+                  _explore("traversal-depth7", 1, 7, "traversal")],
     ),
     manifest=dict(
         text="model checking: complete breadth-first exploration, with state merging, of all operation histories up to the stated depth that interleave tree/text "
